@@ -156,14 +156,57 @@ def _limit_memory():
             resource.setrlimit(resource.RLIMIT_AS, (lim, hard))
 
 
+_COV = {"seen": None}
+
+
+def _coverage_start():
+    """VERIF_COVERAGE=<dir>: record which lines of the package under test the shard executes (sys.monitoring, each
+    line event switched off after its first hit).  A measuring aid for tools/coverage.py, not part of any verdict."""
+    d = os.environ.get("VERIF_COVERAGE")
+    if not d or not hasattr(sys, "monitoring"):
+        return None
+    if _COV["seen"] is not None:
+        return _COV["seen"]
+    mon = sys.monitoring
+    seen = set()
+
+    def on_line(code, lineno):
+        if "jsonpath_rfc9535" in code.co_filename:
+            seen.add((code.co_filename.rsplit("jsonpath_rfc9535", 1)[1].lstrip("/"), lineno))
+        return mon.DISABLE
+
+    try:
+        mon.use_tool_id(mon.COVERAGE_ID, "verif-coverage")
+    except ValueError:
+        return None
+    mon.register_callback(mon.COVERAGE_ID, mon.events.LINE, on_line)
+    mon.set_events(mon.COVERAGE_ID, mon.events.LINE)
+    _COV["seen"] = seen
+    return seen
+
+
+def _coverage_dump(seen, modname, spec):
+    if seen is None:
+        return
+    d = os.environ["VERIF_COVERAGE"]
+    os.makedirs(d, exist_ok=True)
+    name = f"{modname.split('.')[-1]}-{spec.get('shard', 0)}-{spec.get('interp_name', 'main')}-{os.getpid()}.json"
+    with open(os.path.join(d, name), "w") as f:
+        json.dump(sorted(seen), f)
+
+
 def _run_shard(args, in_child=False):
     modname, spec = args
     if spec.get("interp") and not in_child:
         return _run_shard_in_child(modname, spec)
     try:
+        cov = _coverage_start()
         mod = importlib.import_module(modname)
         shard = Shard(spec.get("shard", 0))
-        mod.run_shard(spec, shard)
+        try:
+            mod.run_shard(spec, shard)
+        finally:
+            _coverage_dump(cov, modname, spec)
         return ("ok", shard.to_dict())
     except BaseException:  # noqa: BLE001 - reported as harness error by the parent
         return ("harness-error", traceback.format_exc())
